@@ -34,14 +34,21 @@ def main():
     try:
         import framework
         import families
-        proof = framework.prove(prop, spec)
-        run = framework.Run(prop, args.tier, seed)
+        tier = args.tier
         if args.replay:
+            # every random choice derives from the seed, so a replay file is replayed by re-running the check with the
+            # seed and tier recorded in it (the failing case then comes up again at the same place)
             with open(args.replay) as fh:
                 replay = json.load(fh)
-            families.replay(prop, spec, run, replay)
-        else:
-            families.run(prop, spec, run)
+            seed = int(replay.get("seed", seed))
+            tier = replay.get("tier", tier)
+            print("replaying {} with seed={} tier={}".format(args.replay, seed, tier))
+        import gen_tables
+        if gen_tables.main() != 0:
+            print("gen_tables could not import the tables of /repo; the committed snapshot of Gen/ is used and the tie is reported broken")
+        proof = framework.prove(prop, spec, tier)
+        run = framework.Run(prop, tier, seed)
+        families.run(prop, spec, run)
         return framework.finish(run, spec, proof, sw)
     except InfraError as e:
         print("INFRA-ERROR", prop, e)
